@@ -18,6 +18,7 @@ def run(ctx):
     ctx.rule("C10.R3", "K4", "(= C03.R6) surplus workers are retired oldest first with strictly increasing ages: exactly the old generation goes")
     ctx.rule("C10.R4", "K5/K6", "(= C04.R2/R3) old workers leave gracefully on SIGTERM")
     ctx.rule("C10.R5", "K7", "(= C03.R1) HUP is dispatched to handle_hup -> reload")
+    ctx.rule("C10.R6", "K9", "(= C03.R7) the master survives the SIGCHLDs of the retiring generation: no live iteration of WORKERS (a crash of the main loop closes the listeners)")
     r1(ctx)
     r2(ctx)
     # shared mechanisms, evaluated under this property's rule ids
@@ -25,6 +26,7 @@ def run(ctx):
     _alias(ctx, c04.r2, "C04.R2", "C10.R4")
     _alias(ctx, c04.r3, "C04.R3", "C10.R4")
     r5(ctx)
+    _alias(ctx, c03.r7, "C03.R7", "C10.R6")
 
 
 class _Alias:
